@@ -225,7 +225,7 @@ def execute(case, consumer_modes=None, faults=None, md_plan=None, finish=True, h
                 spinning = run.drain_bound_hit > hits
                 if spinning:
                     spin += 1
-                    if spin > 400:
+                    if spin > 120 + 8 * len(run.emits):
                         break
                 if fresh():
                     quiet_since = loop.vclock.now
